@@ -72,6 +72,61 @@ def _sorted_before_use(fn, collect_node):
     return False
 
 
+KEY_PRESERVING = ("filter", "cloned", "copied", "iter", "into_iter", "by_ref", "inspect", "skip_while", "take_while")
+
+
+def _collect_key_unique(fn, src, collect_node, method):
+    """A hash-ordered iterator collected into a HashSet is order-free.  Collected into a HashMap it is order-free only
+    if no two items can carry the same key (otherwise the last one in *hash order* wins): the key of every produced pair
+    must be the iterated (unique) key.  Returns None if fine, else the reason."""
+    ty = collect_node.get("ty", "")
+    if "HashSet" in ty and "HashMap" not in ty.split("<")[0]:
+        return None
+    # walk the adaptor chain from the source up to collect
+    chain = []
+    cur = src
+    while cur is not collect_node:
+        nxt = None
+        for n in walk(fn["body"]):
+            if n.get("k") == "MethodCall" and n.get("recv") is cur:
+                nxt = n
+                break
+        if nxt is None:
+            return "through an unrecognised chain"
+        chain.append(nxt)
+        cur = nxt
+    key_is_iter_key = method not in ("values", "values_mut", "into_values")
+    single = method in ("keys", "into_keys", "values", "values_mut", "into_values")
+    for n in chain[:-1]:
+        m = n["method"]
+        if m in KEY_PRESERVING:
+            continue
+        if m in ("map", "filter_map", "flat_map") and n["args"] and n["args"][0].get("k") == "Closure":
+            clo = n["args"][0]
+            pat = clo["params"][0] if clo.get("params") else {}
+            if single:
+                key_h = set(_binding_hids(pat)) if method in ("keys", "into_keys") else set()
+            elif pat.get("k") == "Tuple" and len(pat.get("pats", [])) == 2:
+                key_h = set(_binding_hids(pat["pats"][0]))
+            else:
+                key_h = set()
+            tups = [t for t in walk(clo["body"]) if t.get("k") == "Tup" and len(t.get("elems", [])) == 2]
+            if not key_is_iter_key or not tups:
+                return "whose key is computed by a closure from the iterated value (not unique)"
+            for t in tups:
+                leaf = peel(t["elems"][0])
+                while leaf is not None and leaf.get("k") == "MethodCall" and leaf["method"] in ("clone", "to_owned"):
+                    leaf = peel(leaf["recv"])
+                if not (leaf.get("k") == "Path" and leaf.get("res", {}).get("hid") in key_h):
+                    return "keyed by something other than the iterated key (duplicates resolved in hash order: last wins)"
+            # after this adaptor the pair key is still the iterated key
+            continue
+        return "through adaptor .%s()" % m
+    if not key_is_iter_key:
+        return "from values()"
+    return None
+
+
 def _binding_hids(p):
     return [b["hid"] for b in walk(p) if b.get("k") == "Binding"]
 
@@ -167,7 +222,11 @@ def hashorder(F):
                 if term in ORDER_FREE_TERMINALS:
                     cls, detail = "order-free-terminal", parent_chain
                 elif term == "collect" and HM.search(cur.get("ty", "")):
-                    cls, detail = "collect-into-hash-container", parent_chain
+                    why = _collect_key_unique(fn, node, cur, method)
+                    if why is None:
+                        cls, detail = "collect-into-hash-container", parent_chain
+                    else:
+                        cls, detail = "order-sensitive", ["collect into a hash map " + why]
                 elif term == "collect" and _sorted_before_use(fn, cur):
                     cls, detail = "collected-then-sorted", parent_chain + ["sort"]
                 else:
